@@ -207,7 +207,8 @@ def replay_history(kind, hist, variant, extra=None, dn=None, prefix=None, **stac
 
 
 EXTRA_OPS = {"set-strval", "set-intval", "set-ukey", "get-ukey", "set-flags", "touch-kw", "get-many-empty", "gat-kw",
-             "set-empty", "getitem-empty", "setitem", "getitem", "delitem", "getitem-miss", "set-none", "get-none"}
+             "set-empty", "getitem-empty", "setitem", "getitem", "delitem", "getitem-miss", "set-none", "get-none",
+             "set-2char", "get-2char", "get-2byte", "gets-kwdefaults-miss", "gats-kwdefaults-miss", "incr-kwkey"}
 
 
 def do_extra(cl, ev, kind):
@@ -248,6 +249,18 @@ def do_extra(cl, ev, kind):
             r = cl.set("nn", None, noreply=False)
         elif op == "get-none":
             r = cl.get("nn", default=DFLT)
+        elif op == "set-2char":              # keys of exactly two characters / bytes are keys, not (server_key, key) pairs
+            r = cl.set("ab", b"two", noreply=False)
+        elif op == "get-2char":
+            r = cl.get("ab", DFLT)
+        elif op == "get-2byte":
+            r = cl.get(b"ab", DFLT)
+        elif op == "gets-kwdefaults-miss":
+            r = cl.gets("never-set", default=DFLT, cas_default=CASDFLT)
+        elif op == "gats-kwdefaults-miss":
+            r = cl.gats("never-set", expire=9, default=DFLT, cas_default=CASDFLT)
+        elif op == "incr-kwkey":             # everything by keyword, on a value that is not a number: the same error everywhere
+            r = cl.incr(key="sv", value=1, noreply=False)        # "sv" holds text (set-strval)
         else:
             raise ValueError(op)
     except Exception as e:   # noqa
